@@ -29,6 +29,9 @@ NAMES = ["a", "b", "a/b", "b/evil", "a/b/c", "..", "../x", "../../x", "a/../x", 
 TARGETS = [".", "..", "../..", "a", "a/..", "a/../..", "b", "x", "/etc", "JAIL_OUT", "JAIL_DEST", "../outside_file", "../outside_dir", "f", "a/../x", "b/a", "a/../.."]
 
 
+EXPLICIT = []
+
+
 def entry_space(rng, thorough):
     ents = []
     for n in NAMES:
@@ -66,14 +69,80 @@ def gen_archives(rng, thorough):
         [("a", "symlink", "."), ("l", "symlink", "a/../../outside_file"), ("a/../l", "emptyfile", None)],
         [("a", "symlink", "."), ("b", "symlink", "a/.."), ("a/../b", "dir", None)],
         [("a", "symlink", "."), ("b", "symlink", "a/.."), ("a/../b", "file", b"through")],
+        # a directory validated once, then re-pointed through another spelling of its name
+        [("a", "symlink", "."), ("a/b", "symlink", ".."), ("b/../a", "symlink", "b"), ("a/a", "file", b"cached")],
+        [("a", "symlink", "."), ("a/b", "symlink", ".."), ("./a", "symlink", "b"), ("a/x", "emptyfile", None)],
+        [("a", "dir", None), ("a/x", "file", b"1"), ("b", "symlink", ".."), ("b/../a", "symlink", "b"), ("a/y", "file", b"2")],
     ]
     out += chains
+    EXPLICIT[:] = chains      # these also run under every destination spelling and open mode (see run)
+    out += skeleton_archives(rng, 1500 if thorough else 350)
     n2 = 3000 if thorough else 700
     for _ in range(n2):
         k = rng.choice([2, 2, 3, 3, 4] if thorough else [2, 2, 3])
         out.append([rng.choice(ents) for _ in range(k)])
     for _ in range(200 if thorough else 40):
         out.append([rng.choice(ents) for _ in range(rng.randrange(5, 9))])
+    return out
+
+
+def alias(rng, path):
+    """another spelling of the same lexical path (what get_sanitized_output_path maps to the same output)"""
+    parts = path.split("/")
+    k = rng.randrange(5)
+    if k == 0:
+        return "./" + path
+    if k == 1:
+        return rng.choice(["b", "x", "a"]) + "/../" + path
+    if k == 2 and len(parts) >= 1:
+        return "/".join(parts[:-1] + [parts[-1], "..", parts[-1]])
+    if k == 3:
+        return path.replace("/", "/./", 1) if "/" in path else path + "/."
+    return path
+
+
+def skeleton_archives(rng, n):
+    """Grammar over the shapes that have defeated path guards so far: (1) links that make an upward path out of
+    individually harmless targets, (2) optionally a link re-pointed or duplicated under another spelling of an
+    existing name, after its directory has been used, (3) a payload (file, stream-less file, directory, link) whose
+    name passes through them — every name optionally re-spelled."""
+    out = []
+    # systematic core: every combination of the options that matter, one spelling each
+    for l2 in ("a/b", "b"):
+        for t2 in ("..", "a/.."):
+            thirds = [None] + [(al, "b") for al in ("b/../a", "./a", "a/../a", "x/../a")] + [("c", "b/a")]
+            for third in thirds:
+                for pname in ("a/a", "b/evil", "a/b/evil", "a/x", "c", "c/evil", "a/../b", "a/../c"):
+                    for kind in ("file", "emptyfile", "dir"):
+                        ents = [("a", "symlink", "."), (l2, "symlink", t2)]
+                        if third:
+                            ents.append((third[0], "symlink", third[1]))
+                        ents.append((pname, kind, b"evil" if kind == "file" else None))
+                        out.append(ents)
+    for _ in range(n):
+        l1 = rng.choice(["a", "d", "a"])
+        ents = [(l1, "symlink", rng.choice([".", ".", l1 + "/..", "./."]))]
+        l2 = rng.choice([l1 + "/b", "b", l1 + "/" + l1])
+        ents.append((l2, "symlink", rng.choice(["..", "..", l1 + "/..", "../..", l1 + "/../.."])))
+        base2 = l2.split("/")[-1]
+        if rng.random() < 0.6:
+            # re-point an existing link through an alias, or add a third link that composes the first two
+            if rng.random() < 0.5:
+                ents.append((alias(rng, l1), "symlink", rng.choice([base2, l2, "..", l1 + "/" + base2])))
+            else:
+                ents.append((rng.choice(["c", l1 + "/c"]), "symlink", rng.choice([base2 + "/" + l1, l2 + "/" + l1, base2, l2])))
+        if rng.random() < 0.3:
+            ents.insert(rng.randrange(len(ents) + 1), (rng.choice([l1, "b", base2]), rng.choice(["dir", "file", "emptyfile"]), b"early"))
+        pname = rng.choice([l1 + "/" + l1, base2 + "/evil", l2 + "/evil", l1 + "/" + base2 + "/evil", "c/evil", "c", base2, l1 + "/" + l1 + "/evil",
+                            base2 + "/outside_file", "c/outside_file"])
+        if rng.random() < 0.5:
+            pname = alias(rng, pname)
+        kind = rng.choice(["file", "file", "emptyfile", "dir", "symlink"])
+        payload = b"evil" if kind == "file" else (rng.choice(["..", "../outside_dir", "JAIL_OUT"]) if kind == "symlink" else None)
+        ents.append((pname, kind, payload))
+        if rng.random() < 0.3:
+            ents.append((rng.choice([pname + "/deeper", l1 + "/x", "x"]), rng.choice(["file", "emptyfile"]), b"more"))
+        out.append(ents)
     return out
 
 
@@ -234,6 +303,16 @@ def run(ctx):
             populate = (i % 5 == 0)
             jobs.append((data, jail, spelling, by, populate))
             meta.append((entries, spelling, by, populate))
+        k = len(archives)
+        for entries in EXPLICIT:
+            for spelling in ("absolute", "relative", "none"):
+                for by in ("path", "stream"):
+                    jail = os.path.join(tmp, "j%d" % k)
+                    k += 1
+                    os.makedirs(jail)
+                    data = build(entries, jail, rng)
+                    jobs.append((data, jail, spelling, by, False))
+                    meta.append((entries, spelling, by, False))
         res = sandbox.pmap(_extract, jobs, timeout=60)
         for (entries, spelling, by, populate), (st, val) in zip(meta, res):
             desc = [(n, k, (p if k == "symlink" else None)) for n, k, p in entries]
